@@ -539,6 +539,29 @@ func C01(c *core.Ctx) {
 				bk := map[string]string{"pair-map": "map", "pair-list": "list-of-strings", "pair-string": "string"}[pos]
 				cc.Files["base.yaml"], cc.Files["over.yaml"], cc.Main = flowYAML(graft(sp.Path, kindValue(bk))), doc, []string{"base.yaml", "over.yaml"}
 				cc.Expect = "either"
+			case "extends-pair-map", "extends-pair-list", "extends-pair-string":
+				// the attribute on both sides of an extends hop: the base holds the case kind, the extending service a map / list / string
+				if !underSvc {
+					return nil
+				}
+				bk := map[string]string{"extends-pair-map": "map", "extends-pair-list": "list-of-strings", "extends-pair-string": "string"}[pos]
+				base0 := graft(sp.Path, kindValue(kind))["services"].(map[string]interface{})["a"]
+				am, _ := graft(sp.Path, kindValue(bk))["services"].(map[string]interface{})["a"].(map[string]interface{})
+				if am == nil {
+					return nil
+				}
+				am["extends"] = map[string]interface{}{"service": "base0"}
+				cc.Files["compose.yaml"] = flowYAML(map[string]interface{}{"services": map[string]interface{}{"base0": base0, "a": am}})
+				cc.Main = []string{"compose.yaml"}
+				cc.Expect = "either"
+			case "include-pair":
+				// the including file holds the case kind at the path, the included file a valid model with the same top-level sections
+				gi := graft(sp.Path, kindValue(kind))
+				gi["include"] = []interface{}{"inc.yaml"}
+				cc.Files["compose.yaml"] = flowYAML(gi)
+				cc.Files["inc.yaml"] = "services:\n  i: {image: img}\nnetworks:\n  ni: {}\nvolumes:\n  vi: {}\nsecrets:\n  si: {file: ./s}\nconfigs:\n  ci: {file: ./c}\n"
+				cc.Main = []string{"compose.yaml"}
+				cc.Expect = "either"
 			case "extended-base", "extending":
 				if !underSvc {
 					return nil
